@@ -1,0 +1,25 @@
+//go:build verif
+
+// Package verifhook provides named observation points for external verification
+// harnesses. It is only active when built with the "verif" build tag.
+package verifhook
+
+import "sync/atomic"
+
+var handler atomic.Pointer[func(string)]
+
+// Set installs (or with nil removes) the function called at every hook point.
+func Set(f func(string)) {
+	if f == nil {
+		handler.Store(nil)
+		return
+	}
+	handler.Store(&f)
+}
+
+// Hit reports that the named point was reached.
+func Hit(name string) {
+	if f := handler.Load(); f != nil {
+		(*f)(name)
+	}
+}
